@@ -202,6 +202,9 @@ def props_check(pid):
                 ob["status"] = "discharged" if not bad else "disallowed-axioms:" + ",".join(bad)
             else:
                 ob["status"] = "not-reached"
+        elif re.search(r"^\s*Example\s+%s\b" % re.escape(name), text, re.M):
+            ob["status"] = "discharged" if ok else "not-reached"     # non-vacuity examples: closed by vm_compute
+            ob["axioms"] = []
         else:
             ob["status"] = "no-print-assumptions"
         res["obligations"].append(ob)
